@@ -1,26 +1,20 @@
 //! ad-hoc probes (not part of any check)
-use crate::c10::Family;
-use engeom::airfoil::helpers::{extract_curve_beyond_station, OrientedCircles};
-use engeom::airfoil::*;
-use engeom::common::BestFit;
-use engeom::geom2::{Circle2, Curve2};
-use engeom::Vector2;
+use crate::gen;
+use crate::util::Rng;
 pub fn run() {
-    let fam = Family { len: 10.0, bend: -0.3, r0: 0.3310252146591124, r1: 0.1992736563632777, b: 0.8322379830345092, n_side: 80, n_cap: 30 };
-    let pts = fam.outline();
-    let section = Curve2::from_points(&pts, 1e-6, true).unwrap();
-    let geo = AirfoilGeometry::try_analyze(&section, 1e-4, DirectionFwd::make(Vector2::new(-1.0, 0.0)), IntersectEdge::make(), IntersectEdge::make(), FaceOrient::Detect).unwrap();
-    let st = geo.stations.clone();
-    println!("{} stations; last centre {:?} r {}", st.len(), st[st.len() - 1].center(), st[st.len() - 1].radius());
-    let oc = OrientedCircles::new(st.clone(), false);
-    let station = oc.last().unwrap();
-    println!("contacts {:?} {:?}", station.contact_pos, station.contact_neg);
-    let end_sp = oc.end_sp().unwrap().normal;
-    println!("end dir {:?}", end_sp);
-    let edge = extract_curve_beyond_station(&section, station, &end_sp).unwrap();
-    println!("edge curve: {} points, length {} (section {} points, length {}); first {:?} last {:?}", edge.points().len(), edge.length(), section.points().len(), section.length(), edge.points()[0], edge.points()[edge.points().len() - 1]);
-    let test = Circle2::fitting_circle(edge.points(), &station.circle, BestFit::Gaussian(2.0)).unwrap();
-    println!("fit centre {:?} r {}", test.center, test.r());
-    let res = edge.points().iter().map(|p| test.distance_to(p).abs()).fold(0.0, f64::max);
-    println!("max residual {res:e}");
+    let mut rng = Rng::new(5);
+    for _ in 0..4 {
+        let m = gen::height_field(&mut rng, 5, 4, 0.6);
+        let mut outs = vec![];
+        for _ in 0..3 {
+            let e = m.calc_edges().unwrap();
+            let uv = e.boundary_first_flatten().unwrap();
+            outs.push((uv, e.boundary_loops[0].clone()));
+        }
+        let edges: Vec<(u32, u32)> = m.faces().iter().flat_map(|f| vec![(f[0], f[1]), (f[1], f[2]), (f[2], f[0])]).collect();
+        for k in 1..3 {
+            let w = edges.iter().map(|(a, b)| ((outs[0].0[*a as usize] - outs[0].0[*b as usize]).norm() - (outs[k].0[*a as usize] - outs[k].0[*b as usize]).norm()).abs()).fold(0.0, f64::max);
+            println!("same mesh, run 0 vs {k}: loop starts {} vs {}, worst flattened edge length difference {w:e}", outs[0].1[0], outs[k].1[0]);
+        }
+    }
 }
